@@ -63,6 +63,20 @@ _m('C03',
    'Only structural preconditions of composition are checked; pauses via stop()/start() are covered by C04 race shapes.',
    'DESIGN.md §3 C03')
 
+_m('C04',
+   'interprocedural refuse-before-effect dataflow with guard-subsumption filter; exhaustive admission tables by three-valued guard evaluation; CFG pairing/dominance rules; two race-shape rules',
+   'Decides that on no path of any lifecycle command an explicit refusal (own raise or feasible callee raise) follows a '
+   'field write, container mutation or notification; that the admission decision of start/step/stop/run_up_to*/initialize '
+   'equals the documented protocol in every abstract state of RunState x ReplicationState x replication-present x '
+   '(clock ? end); that START/STOP are paired on all paths, replication start/end are fired once under their state tests, '
+   'TIME_CHANGED carries the popped event time, one warm-up per initialize; that wait()/clear() are adjacent (no lost '
+   'wake-up); that the optional worker is only dereferenced when known to exist; that the run thread terminates. One '
+   'race shape (stop vs. end of replication) and one late refusal in initialize are genuine and listed as known findings. '
+   'Outcomes of arbitrary interleavings are not decided.',
+   'No lock discipline exists in the code to check against, so only two race shapes are decided; listener exceptions are '
+   'outside the pairing rule for the worker thread; own-container elements are assumed well typed.',
+   'DESIGN.md §3 C04')
+
 
 def finalize():
     for i in range(1, 19):
